@@ -34,6 +34,6 @@ MacroQuiescent == Quiescent(Cur)
 
 \* `out` only records what was written; it never influences a transition
 View == <<vec, count, curr, state, keepalive, idle, reqmsg, chan, wire, rq,
-          rdead, wfail, peerOpen, handles, closed, asked, sent, done,
+          rdead, wfail, wstall, peerOpen, handles, closed, asked, sent, done,
           nsub, nframes>>
 =============================================================================
